@@ -82,10 +82,75 @@ def rule_filter(ctx: Ctx):
             g = dc.generators[0]
             e = norm(g.target)
             okd = norm(dc.key) == f"{e}.span()" and norm(dc.value) == e and norm(g.iter) == P and not g.ifs and fn.body.index(s) < fn.body.index(sdef[0])
+    # ... or by a loop filling a dict keyed by span(), whose condition decides which of two citations with identical spans survives
+    keep_pref = None  # (reference may replace non-reference?, every span gets an entry?)
+    why_pref = "the de-duplication is a dict comprehension: of two citations with identical spans the later one survives, whatever its kind"
+    for s in dd:
+        v = s.value
+        inner = v.args[0] if isinstance(v, ast.Call) and dotted(v.func) == "list" and v.args else v
+        if not (isinstance(inner, ast.Call) and isinstance(inner.func, ast.Attribute) and inner.func.attr == "values" and isinstance(inner.func.value, ast.Name)):
+            continue
+        D = inner.func.value.id
+        dloops = [l for l in fn.body if isinstance(l, ast.For) and norm(l.iter) == P and isinstance(l.target, ast.Name) and fn.body.index(l) < fn.body.index(s)]
+        dinit = [x for x in fn.body if isinstance(x, (ast.Assign, ast.AnnAssign)) and D in assigned_names(x)]
+        if len(dloops) != 1 or len(dinit) != 1 or norm(dinit[0].value) not in ("{}", "dict()"):
+            continue
+        dl = dloops[0]
+        e = dl.target.id
+        stores = [x for x in stmts_local(dl.body) if isinstance(x, ast.Assign) and isinstance(x.targets[0], ast.Subscript) and norm(x.targets[0].value) == D]
+        others = [x for x in walk_local(dl) if isinstance(x, ast.Call) and isinstance(x.func, ast.Attribute) and norm(x.func.value) == D
+                  and x.func.attr not in ("get",)] + [x for x in walk_local(dl) if isinstance(x, ast.Delete)]
+        kdefs = {norm(x.targets[0]): x for x in stmts_local(dl.body) if isinstance(x, ast.Assign) and isinstance(x.targets[0], ast.Name)
+                 and norm(x.value) in (f"{D}.get({e}.span())", f"{D}.get({e}.span(), None)")}
+        if len(stores) != 1 or others or len(kdefs) != 1 or norm(stores[0].targets[0].slice) != f"{e}.span()" or norm(stores[0].value) != e:
+            why_pref = f"the de-duplication loop is not `kept = {D}.get(c.span())` + one guarded `{D}[c.span()] = c`"
+            continue
+        K = next(iter(kdefs))
+        okd = fn.body.index(s) < fn.body.index(sdef[0])
+        # evaluate the guard of the store for every combination of (slot empty, c is a reference, kept is a reference)
+        import itertools
+        from ..core import eval_bool
+        # the conditions the store is nested in (each an `if` without else whose body holds it; `if not C: continue` guards before it)
+        gs = []
+        cur_ = stores[0]
+        while getattr(cur_, "parent", None) is not None and cur_.parent is not dl:
+            par_ = cur_.parent
+            if isinstance(par_, ast.If):
+                gs.append((par_.test, cur_ in par_.body))
+            cur_ = par_
+        top_ = cur_
+        for prev_ in dl.body[:dl.body.index(top_)]:
+            if isinstance(prev_, ast.If) and not prev_.orelse and len(prev_.body) == 1 and isinstance(prev_.body[0], ast.Continue):
+                gs.append((prev_.test, False))
+        cond_true = lambda env: all((eval_bool(c_, env) is True) if o_ else (eval_bool(c_, env) is False) for c_, o_ in gs)  # noqa: E731
+        ref_replaces = always_enters = None
+        unknown = False
+        for empty, cref, kref in itertools.product([False, True], repeat=3):
+            if empty and kref:
+                continue
+            env = {f"{K} is None": empty, f"isinstance({e}, ReferenceCitation)": cref, f"isinstance({K}, ReferenceCitation)": kref, K: not empty}
+            vals = [eval_bool(c_, env) for c_, _o in gs]
+            if any(v_ is None for v_ in vals):
+                unknown = True
+                break
+            st = cond_true(env)
+            if empty and not st:
+                always_enters = False
+            if not empty and cref and not kref and st:
+                ref_replaces = True
+        if unknown:
+            why_pref = f"the guard of `{norm(stores[0])[:40]}` uses a condition this rule cannot evaluate ({[norm(c_)[:40] for c_, _ in gs]})"
+        else:
+            keep_pref = (bool(ref_replaces), always_enters is not False)
+            why_pref = f"guard {[norm(c_)[:50] for c_, _ in gs]}: reference replaces non-reference={bool(ref_replaces)}, empty slot always filled={always_enters is not False}"
     ctx.ob("R-C03-3", f"{q}/dedupe-by-span", okd, "before sorting, the list is rebuilt from a dict keyed by span(): no two results have identical spans",
            node=dd[0] if dd else fn, mod=m)
+    ctx.ob("R-C03-3", f"{q}/dedupe-keeps-non-references", keep_pref == (False, True),
+           "of two citations with identical spans a reference citation never replaces a citation of another kind, and every span keeps one citation: merging "
+           f"references into a result with filter_citations(citations + references) keeps every non-reference citation ({why_pref})",
+           node=dd[0] if dd else fn, mod=m, witness="Smith v. Gilmer, 1 U.S. 1 (1990). ... relied on Gilmer at 70 (resolved name 'Gilmer'): ShortCaseCitation and ReferenceCitation at (60, 72)")
     # the loop
-    loops = [s for s in fn.body if isinstance(s, ast.For)]
+    loops = [s for s in fn.body if isinstance(s, ast.For) and norm(s.iter) == f"{SORTED}[1:]"]
     okl = len(loops) == 1 and norm(loops[0].iter) == f"{SORTED}[1:]" and isinstance(loops[0].target, ast.Name)
     ctx.ob("R-C03-2", f"{q}/loop", okl, f"one loop over {SORTED}[1:]", node=loops[0] if loops else fn, mod=m)
     if not okl:
